@@ -163,6 +163,23 @@ func (x *Exec) atExit(st *State, fr *Frame, rets []Val, pos token.Pos) {
 			}
 		}
 	}
+	for i, en := range x.con.Checks {
+		lenv := *env
+		lenv.fr = fr
+		g := x.evalSpec(en.E, &lenv)
+		lbl := en.Label
+		if lbl == "" {
+			lbl = fmt.Sprintf("check%d", i)
+		}
+		parts := splitGoal(g.T)
+		for pi, part := range parts {
+			l2 := lbl
+			if len(parts) > 1 {
+				l2 = fmt.Sprintf("%s#%d", lbl, pi+1)
+			}
+			x.emit(st, "post", "check."+l2, en.Text, part, en.Props, pos, fr)
+		}
+	}
 	for i, en := range x.con.Ensures {
 		g := x.evalSpec(en.E, env)
 		lbl := en.Label
